@@ -1299,7 +1299,13 @@ def parse_txt(txt, xopts=None, **kwargs):
     # tag bodies (ref, poem, gallery, ...) are parsed by nested calls; a template that includes
     # itself through such a body would nest without bound: beyond this depth the body stays text
     depth = (xopts.parse_depth or 0) + 1
-    if depth > MAX_NESTED_PARSES:
+    # ... and a template that includes itself k times per body would cost k**depth parses: tag bodies
+    # inside tag bodies share one budget per article
+    if depth == 1 or xopts.deep_parses is None:
+        xopts.deep_parses = [0]
+    elif depth > 2:
+        xopts.deep_parses[0] += 1
+    if depth > MAX_NESTED_PARSES or xopts.deep_parses[0] > MAX_DEEP_PARSES:
         return [Token(type=Token.t_text, text=txt)]
     xopts.parse_depth = depth
     try:
@@ -1309,6 +1315,7 @@ def parse_txt(txt, xopts=None, **kwargs):
 
 
 MAX_NESTED_PARSES = 12
+MAX_DEEP_PARSES = 5000
 
 
 def _parse_tokens(tokens, xopts):
